@@ -11,7 +11,8 @@ Driver lanes of C10.
 `c10run <variant> <clientOps> <reqOps> <conds> <hooks> <after> <script> <backoffObs>
         <c.cookies> <c.headers> <c.form> <c.query> <c.allowGet>
         <method> <url> <cookies> <headers> <form> <ordered> <query> <multipart> <files> <body>
-        <resend> <ivx> <rawQuery> <pathParams> <c.pathParams> <c.baseURL> <c.scheme> <setCookies>`
+        <resend> <ivx> <rawQuery> <pathParams> <c.pathParams> <c.baseURL> <c.scheme> <setCookies> <dumpObs> <traceObs> <bodyObs>`
+(`<dumpObs>`/`<traceObs>`: `1` the lane observes the dump / trace of the returned response, else `-`)
 (`<url>` is a template: `a<origin>|<segs>` absolute, `s<authority>|<segs>` without scheme, `r|<segs>`
 relative; `<segs>` = `l<hex>` literal / `p<hex>` `{placeholder}`, comma separated; `<setCookies>` =
 per script position `-` or the `name:value` pairs (`name:` deletes) the response sets in the jar)
@@ -52,9 +53,9 @@ def decBool (s : String) : Option Bool :=
 
 def decVariant (s : String) : Option Variant :=
   match s.toList with
-  | [a, b, c, d, e, g] => do
+  | [a, b, c, d, e, g, h] => do
     let f (ch : Char) : Option Bool := if ch == '1' then some true else if ch == '0' then some false else none
-    pure ⟨← f a, ← f b, ← f c, ← f d, ← f e, ← f g⟩
+    pure ⟨← f a, ← f b, ← f c, ← f d, ← f e, ← f g, ← f h⟩
   | _ => none
 
 def dropS (s : String) (n : Nat) : String := String.ofList (s.toList.drop n)
@@ -428,21 +429,45 @@ def countIntervals : List (Event Wire) → Nat
   | .interval _ _ _ :: t => countIntervals t + 1
   | _ :: t => countIntervals t
 
-def encSends (showWire : Bool) (sets : List (List (Bytes × Bytes))) :
-    List (List (Event Wire) × Final) → List Int → Nat → List String
+/-- What the caller finds on the response finally returned: `K<body><result><dump><trace>`, each
+`1` (still what the last attempt buffered), `0` (wiped) or `-` (nothing to observe: no HTTP
+response / no result state / dump or trace off or not observable in the lane). -/
+def encKept (script : List Outcome) (pass : Nat) (fin : Final) (held : Bool) (dumpObs traceObs bodyObs : String) : String :=
+  match fin with
+  | .done resp _ =>
+    -- the pass whose response is handed back: the last one, or — when a request middleware failed
+    -- on a retry — the one before it
+    let last := script[pass - 1]?
+    let src : Option Outcome :=
+      if resp.isNone then none
+      else if last == some Outcome.beforeErr then (if pass ≥ 2 then script[pass - 2]? else none)
+      else last
+    let bit (applicable : Bool) : String := if !applicable then "-" else if held then "1" else "0"
+    let hasBody := match src with
+      | some (.status _) | some (.badBody _) | some (.lateCancel _) => true
+      | _ => false
+    let hasResult := match src with
+      | some (.status c) | some (.lateCancel c) => (decide (200 ≤ c) && decide (c < 300)) || decide (400 ≤ c)
+      | _ => false
+    "K" ++ bit (hasBody && bodyObs == "1") ++ bit hasResult ++ bit (dumpObs == "1") ++ bit (traceObs == "1")
+  | _ => "K-"
+
+def encSends (showWire : Bool) (sets : List (List (Bytes × Bytes))) (script : List Outcome) (dumpObs traceObs bodyObs : String) :
+    List (List (Event Wire) × Final × Bool) → List Int → Nat → List String
   | [], _, _ => []
-  | (ev, fin) :: more, obs, pass =>
+  | (ev, fin, held) :: more, obs, pass =>
     let r := encEvents showWire sets ev obs pass
-    r.1 ++ [encFinal fin] ++ encSends showWire sets more (obs.drop (countIntervals ev)) r.2
+    r.1 ++ [encFinal fin, encKept script r.2 fin held dumpObs traceObs bodyObs] ++
+      encSends showWire sets script dumpObs traceObs bodyObs more (obs.drop (countIntervals ev)) r.2
 
 def decSets (s : String) : Option (List (List (Bytes × Bytes))) :=
   (splitList "," s).mapM fun t => if t == "-" then some [] else (t.splitOn "+").mapM decPair
 
 def laneRun (showWire : Bool) : List String → String
-  | [v, cops, rops, conds, hooks, after, script, bobs,
-     cck, chd, cfm, cq, cag,
+  | v :: cops :: rops :: conds :: hooks :: after :: script :: bobs ::
+     [cck, chd, cfm, cq, cag,
      method, url, ck, hd, fm, ord, q, mp, files, body, resend, ivx,
-     rawq, pp, cpp, cbase, cscheme, sets] =>
+     rawq, pp, cpp, cbase, cscheme, sets, dumpObs, traceObs, bodyObs] =>
     let r : Option String := do
       let v ← decVariant v
       let ro := effective (← decSetters cops) (← decSetters rops)
@@ -463,7 +488,7 @@ def laneRun (showWire : Bool) : List String → String
         ← decPairs ord, ← decMulti q, ← decBool mp, ← decFiles files, ← decBody body⟩
       let sets ← decSets sets
       let sends := dsends v p ed (mw v cfg) (unreplayable v) resend script 0 st (dynOf p)
-      pure (" ".intercalate (encSends showWire sets sends bobs 0))
+      pure (" ".intercalate (encSends showWire sets script dumpObs traceObs bodyObs sends bobs 0))
     r.getD "bad-op"
   | _ => "bad-op"
 
